@@ -69,7 +69,13 @@ def iterF (o : TxOutsV) : String :=
         let hints := (toString it.sizeHint.1) :: hints
         match it.next with
         | .ok (some x, it') => go fuel it' (("(" ++ txOutF x ++ ")") :: items) hints
-        | .ok (none, _) => s!"[{";".intercalate items.reverse}],hints=[{",".intercalate hints.reverse}]"
+        | .ok (none, it') =>
+          -- after the end: the reported remaining length, and what one more `next()` answers (the iterator is fused)
+          let again := match it'.next with
+            | .ok (none, it'') => s!"none/{it''.sizeHint.1}"
+            | .ok (some _, _) => "some"
+            | _ => "panic"
+          s!"[{";".intercalate items.reverse}],hints=[{",".intercalate hints.reverse}],after={it'.sizeHint.1}:{again}"
         | _ => s!"[{";".intercalate items.reverse}],hints=[{",".intercalate hints.reverse}],panic"
     go (o.slice.len + 2) it [] []
   | _ => "panic"
